@@ -768,12 +768,15 @@ Proof.
              | None => None end) nv); [reflexivity|].
   apply mapM_ext_in. intros [[[pat op] var] v] _. now rewrite H.
 Qed.
-Lemma observe_equiv d r h t nv ev : abs d h r = Some t -> observe d r h nv ev = tobserve d t nv ev.
+Lemma observe_equiv_gen fx d r h t nv ev : abs d h r = Some t -> observe_gen fx d r h nv ev = tobserve_gen fx d t nv ev.
 Proof.
-  intros H. unfold observe, tobserve. rewrite (nodes_of_equiv d r h t H), (collect_edges_equiv d h r t H).
+  intros H. unfold observe_gen, tobserve_gen. rewrite (nodes_of_equiv d r h t H), (collect_edges_equiv d h r t H).
   rewrite (overrides_ext (get_nodes d h r) (tget_nodes t) nv) by (intros; now apply get_nodes_equiv).
   destruct (tnodes_of d t); [|reflexivity]. destruct (overrides (tget_nodes t) nv); reflexivity.
 Qed.
+
+Lemma observe_equiv d r h t nv ev : abs d h r = Some t -> observe d r h nv ev = tobserve d t nv ev.
+Proof. apply observe_equiv_gen. Qed.
 
 (* ------------------------------------------------------------------ update_template *)
 Lemma lift_dset {A B} (f : A -> option B) k x y : forall l s, mapM (lift f) l = Some s -> f x = Some y ->
@@ -944,11 +947,11 @@ Proof.
   - apply IH.
 Qed.
 
-Lemma step_refines d st ss o : sim d st ss ->
-  sim d (fst (stepI d st o)) (fst (stepS d ss o)) /\ snd (stepI d st o) = snd (stepS d ss o).
+Lemma step_refines fx d st ss o : sim d st ss ->
+  sim d (fst (stepI_gen fx d st o)) (fst (stepS_gen fx d ss o)) /\ snd (stepI_gen fx d st o) = snd (stepS_gen fx d ss o).
 Proof.
   destruct st as [[h r] olds]. destruct ss as [t tolds]. unfold sim, heap_of, root_of, olds_of. cbn [fst snd]. intros (H & HO).
-  destruct o as [pat op var v|s tg upd|inpl adds es|nv ev|k]; cbn [stepI stepS].
+  destruct o as [pat op var v|s tg upd|inpl adds es|nv ev|k]; cbn [stepI_gen stepS_gen].
   - pose proof (update_var_equiv d r h t pat op var v H) as U. destruct (update_var d r h pat op var v).
     + destruct U as (t' & -> & ? & K). cbn. repeat split; try assumption. eapply olds_step; eauto.
     + rewrite U. cbn. auto.
@@ -964,25 +967,98 @@ Proof.
         -- exists h. repeat split; assumption.
         -- eapply olds_step; eauto. lia.
     + rewrite U. cbn. auto.
-  - cbn. repeat split; try assumption. now apply observe_equiv.
+  - cbn. repeat split; try assumption. now apply observe_equiv_gen.
   - cbn. repeat split; try assumption. pose proof (olds_nth d h r olds tolds k HO) as N. destruct (nth_error olds k) as [b|].
-    + destruct N as (tb & -> & Hb). now apply observe_equiv.
+    + destruct N as (tb & -> & Hb). now apply observe_equiv_gen.
     + now rewrite N.
 Qed.
-Theorem history_refines d : forall ops st ss, sim d st ss ->
-  sim d (fst (runI d st ops)) (fst (runS' d ss ops)) /\ snd (runI d st ops) = snd (runS' d ss ops).
+Theorem history_refines fx d : forall ops st ss, sim d st ss ->
+  sim d (fst (runI_gen fx d st ops)) (fst (runS_gen fx d ss ops)) /\ snd (runI_gen fx d st ops) = snd (runS_gen fx d ss ops).
 Proof.
   induction ops as [|o ops IH]; intros st ss H; cbn; [auto|].
-  destruct (step_refines d st ss o H) as (Ha & Ho).
-  destruct (stepI d st o) as [s1 out]. destruct (stepS d ss o) as [t1 out']. cbn in *. subst out'.
-  destruct (IH s1 t1 Ha) as (Hb & Hc). destruct (runI d s1 ops) as [s2 outs]. destruct (runS' d t1 ops) as [t2 outs'].
+  destruct (step_refines fx d st ss o H) as (Ha & Ho).
+  destruct (stepI_gen fx d st o) as [s1 out]. destruct (stepS_gen fx d ss o) as [t1 out']. cbn in *. subst out'.
+  destruct (IH s1 t1 Ha) as (Hb & Hc). destruct (runI_gen fx d s1 ops) as [s2 outs]. destruct (runS_gen fx d t1 ops) as [t2 outs'].
   cbn in *. subst. auto.
 Qed.
-Corollary history_outputs d r ops h t : abs d h r = Some t -> snd (runI d (init_state h r) ops) = snd (runS d t ops).
-Proof. intros H. apply (history_refines d ops (init_state h r) (t, [])). split; [exact H|constructor]. Qed.
-Corollary history_final d r ops h t : abs d h r = Some t ->
-  abs d (heap_of (fst (runI d (init_state h r) ops))) (root_of (fst (runI d (init_state h r) ops))) = Some (fst (fst (runS d t ops))).
-Proof. intros H. apply (history_refines d ops (init_state h r) (t, [])). split; [exact H|constructor]. Qed.
+Corollary history_outputs_gen fx d r ops h t : abs d h r = Some t ->
+  snd (runI_gen fx d (init_state h r) ops) = snd (runS_gen fx d (t, []) ops).
+Proof. intros H. apply (history_refines fx d ops (init_state h r) (t, [])). split; [exact H|constructor]. Qed.
+Corollary history_outputs_fixed d r ops h t : abs d h r = Some t -> snd (runI_gen true d (init_state h r) ops) = snd (runS d t ops).
+Proof. apply history_outputs_gen. Qed.
+
+(* ------------------------------------------------------------------ decidable equality of outputs (for the D97 guard) *)
+Lemma Qc_eqb_eq a b : Qc_eqb a b = true -> a = b.
+Proof. unfold Qc_eqb. intros H. apply Qc_is_canon. now apply Qeq_bool_iff. Qed.
+Fixpoint list_eqb {A} (f : A -> A -> bool) (a b : list A) : bool :=
+  match a, b with [], [] => true | x :: a', y :: b' => f x y && list_eqb f a' b' | _, _ => false end.
+Lemma list_eqb_eq {A} (f : A -> A -> bool) : (forall x y, f x y = true -> x = y) -> forall a b, list_eqb f a b = true -> a = b.
+Proof.
+  intros Hf. induction a as [|x a IH]; intros [|y b] H; cbn in H; try discriminate; [reflexivity|].
+  apply andb_true_iff in H as [H1 H2]. f_equal; auto.
+Qed.
+Definition val_eqs (a b : val) : bool :=
+  match a, b with
+  | Sc x, Sc y => Qc_eqb x y
+  | Arr x, Arr y => list_eqb Qc_eqb x y
+  | ScI x, ScI y => Z.eqb x y
+  | Ref x, Ref y => String.eqb x y
+  | _, _ => false
+  end.
+Lemma val_eqs_eq a b : val_eqs a b = true -> a = b.
+Proof.
+  destruct a, b; cbn; try discriminate; intros H.
+  - f_equal. now apply Qc_eqb_eq.
+  - f_equal. revert H. apply list_eqb_eq. apply Qc_eqb_eq.
+  - f_equal. now apply Z.eqb_eq.
+  - f_equal. now apply String.eqb_eq.
+Qed.
+Definition okv_eqs (a b : okey * val) : bool :=
+  let '((p, o, v), x) := a in let '((p', o', v'), y) := b in
+  list_eqb String.eqb p p' && String.eqb o o' && String.eqb v v' && val_eqs x y.
+Lemma okv_eqs_eq a b : okv_eqs a b = true -> a = b.
+Proof.
+  destruct a as [[[p o] v] x], b as [[[p' o'] v'] y]. cbn. intros H.
+  repeat (apply andb_true_iff in H as [H ?]). apply (list_eqb_eq String.eqb) in H; [|intros; now apply String.eqb_eq].
+  repeat match goal with E : String.eqb _ _ = true |- _ => apply String.eqb_eq in E end.
+  match goal with E : val_eqs _ _ = true |- _ => apply val_eqs_eq in E end. congruence.
+Qed.
+Definition kv_eqs (a b : string * val) : bool := String.eqb (fst a) (fst b) && val_eqs (snd a) (snd b).
+Lemma kv_eqs_eq a b : kv_eqs a b = true -> a = b.
+Proof. destruct a, b. unfold kv_eqs. cbn. intros H. apply andb_true_iff in H as [H1 H2]. apply String.eqb_eq in H1. apply val_eqs_eq in H2. congruence. Qed.
+Definition edge_eqs (a b : edge) : bool :=
+  let '(s, t, x) := a in let '(s', t', y) := b in String.eqb s s' && String.eqb t t' && list_eqb kv_eqs x y.
+Lemma edge_eqs_eq a b : edge_eqs a b = true -> a = b.
+Proof.
+  destruct a as [[s t] x], b as [[s' t'] y]. cbn. intros H. repeat (apply andb_true_iff in H as [H ?]).
+  apply String.eqb_eq in H. match goal with E : String.eqb _ _ = true |- _ => apply String.eqb_eq in E end.
+  match goal with E : list_eqb _ _ _ = true |- _ => apply (list_eqb_eq kv_eqs kv_eqs_eq) in E end. congruence.
+Qed.
+Definition hout_eqs (a b : hout) : bool :=
+  match a, b with
+  | ODone, ODone | ORaised, ORaised => true
+  | OObs n e, OObs n' e' => list_eqb okv_eqs n n' && list_eqb edge_eqs e e'
+  | _, _ => false
+  end.
+Lemma hout_eqs_eq a b : hout_eqs a b = true -> a = b.
+Proof.
+  destruct a, b; cbn; try discriminate; try reflexivity. intros H. apply andb_true_iff in H as [H1 H2].
+  apply (list_eqb_eq okv_eqs okv_eqs_eq) in H1. apply (list_eqb_eq edge_eqs edge_eqs_eq) in H2. congruence.
+Qed.
+
+(* guard of finding D97: along the history no compilation hands a non-integral value to a variable declared by an integer,
+   i.e. the specification that casts such values gives the same outputs as the one that does not *)
+Definition int_exact (d : nat) (t : atree) (ops : list hop) : bool :=
+  list_eqb hout_eqs (snd (runS_gen false d (t, []) ops)) (snd (runS_gen true d (t, []) ops)).
+Theorem history_outputs_guarded fx d r ops h t : abs d h r = Some t -> fx = true \/ int_exact d t ops = true ->
+  snd (runI_gen fx d (init_state h r) ops) = snd (runS d t ops).
+Proof.
+  intros H G. rewrite (history_outputs_gen fx d r ops h t H). destruct fx; [reflexivity|].
+  destruct G as [G|G]; [discriminate|]. apply (list_eqb_eq hout_eqs hout_eqs_eq). exact G.
+Qed.
+Corollary history_outputs d r ops h t : abs d h r = Some t -> fixed_D97 = true \/ int_exact d t ops = true ->
+  snd (runI d (init_state h r) ops) = snd (runS d t ops).
+Proof. apply history_outputs_guarded. Qed.
 
 (* ------------------------------------------------------------------ the frame property of the specification:
    a functional update at path n changes the node at n and no other (first-match dictionaries).
